@@ -20,6 +20,12 @@ CLAIMED["C01"] = ("exploration",
     "Trusted: the 10-line finite-set model operators, Denote (exported enumerators only). Violations inside the hazard regions listed in known-findings.json (superimposed sequences, sparse strings/bytes, multi-valued dict keys, offset string/bytes unions) are matched by hazard+mode; everything else, and any new panic site, is reported.",
     "DESIGN.md §7 C01")
 
+CLAIMED["C03"] = ("exploration",
+    "runtime history monitor: snapshots (denotation, printed form, count) of every live value re-taken after every later operation of a branching history and compared",
+    "Branching histories over a pool of live values: ~50 operator templates (with/without at end/front/middle, ++ | & &~ ~~, >> >>> => where through native probes, offsets, joins, +>, //seq.*, pattern match and rebuild, orderby/rank/nest, Go-level With/Without/Map/Where/Concatenate/Union) applied with a bias to re-deriving from the same parent (the capacity-aliasing pattern); after every step every earlier value must still have the snapshot taken at its creation. No known findings are listed for this property: any change of any earlier value is reported.",
+    "Trusted: Denote/Repr/Count as observation of a value's content. Mutation through Go-level misuse of exported slices by callers outside arrai is out of scope.",
+    "DESIGN.md §7 C03")
+
 NOT_YET = "check not built yet in this session (planned, see DESIGN.md §7/§12); will be claimed once its monitor is silent on the unchanged tree and catches seeded breaks"
 
 def main():
